@@ -75,19 +75,21 @@ Proof.
     (* broadcast of the operands to the common shape *)
     assert (Ea : exists f1, (if ua =? c then Some ((c, false) :: a') else if ua =? 1 then Some ((c, true) :: a') else None) = Some ((c, f1) :: a') /\ (fa = false -> f1 = false)).
     { destruct (ua =? c) eqn:E; [exists false; split; [reflexivity | auto]|].
-      apply Z.eqb_neq in E. destruct Hca as [->|Hu]; [congruence|]. rewrite Hu. simpl. exists true. split; [reflexivity|].
-      intros Hf0. apply Hfa in Hf0. unfold ua in *. rewrite (proj2 (Bool.not_true_iff_false fa)) in * by (destruct fa; [discriminate|auto]).
-      subst c. congruence. }
+      apply Z.eqb_neq in E. destruct Hca as [Hc0|Hu]; [congruence|]. exists true. split.
+      - rewrite Hu. rewrite Z.eqb_refl. reflexivity.
+      - intros Hf0. exfalso. pose proof (Hfa Hf0) as Hc0. unfold ua in *. destruct fa; [discriminate|]. cbv iota in *. congruence. }
     assert (Eb : exists f2, (if ub =? c then Some ((c, false) :: b') else if ub =? 1 then Some ((c, true) :: b') else None) = Some ((c, f2) :: b') /\ (fb = false -> f2 = false)).
     { destruct (ub =? c) eqn:E; [exists false; split; [reflexivity | auto]|].
-      apply Z.eqb_neq in E. destruct Hcb as [->|Hu]; [congruence|]. rewrite Hu. simpl. exists true. split; [reflexivity|].
-      intros Hf0. apply Hfb in Hf0. unfold ub in *. destruct fb; [discriminate|]. subst c. congruence. }
+      apply Z.eqb_neq in E. destruct Hcb as [Hc0|Hu]; [congruence|]. exists true. split.
+      - rewrite Hu. rewrite Z.eqb_refl. reflexivity.
+      - intros Hf0. exfalso. pose proof (Hfb Hf0) as Hc0. unfold ub in *. destruct fb; [discriminate|]. cbv iota in *. congruence. }
     destruct Ea as (f1 & Ea & Hf1). destruct Eb as (f2 & Eb & Hf2).
     assert (Ef : exists f3, (if c =? n then Some ((n, false) :: fin) else if c =? 1 then Some ((n, true) :: fin) else None) = Some ((n, f3) :: fin)
                             /\ (fa = false -> f3 = false) /\ (fb = false -> f3 = false)).
     { destruct (c =? n) eqn:E; [exists false; repeat split; auto|].
-      apply Z.eqb_neq in E. destruct Hcn as [->|Hu]; [congruence|]. rewrite Hu. simpl. exists true. split; [reflexivity|].
-      split; intros Hf0; [apply Hfa in Hf0 | apply Hfb in Hf0]; congruence. }
+      apply Z.eqb_neq in E. destruct Hcn as [Hc0|Hu]; [congruence|]. exists true. split.
+      - rewrite Hu. rewrite Z.eqb_refl. reflexivity.
+      - split; intros Hf0; exfalso; [apply Hfa in Hf0 | apply Hfb in Hf0]; congruence. }
     destruct Ef as (f3 & Ef & Hf3a & Hf3b).
     exists ((c, f1) :: a'), ((c, f2) :: b'), ((n, f3) :: fin).
     split; [reflexivity|]. split; [exact Ea|]. split; [exact Eb|]. split; [exact Ef|].
@@ -102,12 +104,13 @@ Lemma scalar_axes : forall la,
   exists fin, bcast_axes (fresh_axes (map fst (unb la))) (map fst la) = Some fin /\
     forall idx, in_box (map fst la) idx -> collapse la (collapse fin idx) = collapse la idx.
 Proof.
-  induction la as [|[n fa] la IH]; simpl.
+  induction la as [|[n fa] la IH].
   - exists []. split; [reflexivity|]. intros idx _. destruct idx; reflexivity.
-  - destruct IH as (fin & Hf & Hi). unfold fresh_axes in *. simpl. rewrite Hf.
-    destruct fa; simpl.
+  - destruct IH as (fin & Hf & Hi). unfold fresh_axes in *.
+    cbn [unb map fst snd bcast_axes]. fold (unb la). rewrite Hf.
+    destruct fa; cbv iota.
     + destruct (1 =? n) eqn:E.
-      * exists ((n, false) :: fin). split; [reflexivity|]. intros idx Hb. inversion Hb; subst. simpl. rewrite Hi by assumption. reflexivity.
-      * exists ((n, true) :: fin). split; [reflexivity|]. intros idx Hb. inversion Hb; subst. simpl. rewrite Hi by assumption. reflexivity.
-    + rewrite Z.eqb_refl. exists ((n, false) :: fin). split; [reflexivity|]. intros idx Hb. inversion Hb; subst. simpl. rewrite Hi by assumption. reflexivity.
+      * exists ((n, false) :: fin). split; [reflexivity|]. intros idx Hb. inversion Hb; subst. cbn [collapse]. rewrite Hi by assumption. reflexivity.
+      * rewrite Z.eqb_refl. exists ((n, true) :: fin). split; [reflexivity|]. intros idx Hb. inversion Hb; subst. cbn [collapse]. rewrite Hi by assumption. reflexivity.
+    + rewrite Z.eqb_refl. exists ((n, false) :: fin). split; [reflexivity|]. intros idx Hb. inversion Hb; subst. cbn [collapse]. rewrite Hi by assumption. reflexivity.
 Qed.
